@@ -200,6 +200,8 @@ def quic_steps(draw, max_steps=12, key_updates=True, cids=True, zero_cid=False):
             steps.append({"op": "ncid", "d": d, "len": draw(st.integers(1, 20))})
         elif k in (3, 4) and cids:
             steps.append({"op": "usecid", "d": d, "i": draw(st.integers(0, 5))})
+        elif k == 6 and cids and draw(st.integers(0, 2)) == 0:
+            steps.append({"op": "rebind"})
         elif k == 5:
             steps.append({"op": "ping", "d": d, "gap": draw(st.sampled_from(GAPS)), "pnl": draw(st.sampled_from([0, 0, 1, 2]))})
         else:
